@@ -93,6 +93,11 @@ def ctx():
     return dict(ref=ref, prs=prs, names=list(prs), E=E)
 
 
+# attribute names read one by one through Sid.get_attr (the routed read): written ones, an absent one, and names that look like
+# the computed-attribute syntax without being the computed attribute ('next.version')
+ATTR_KEYS = ["a", "b", "zz", "c", "next", "next.review"]
+
+
 def ops(values=(1, 2)):
     out = []
     for e in ("F1", "F2", "F3", "M1", "V1", "D1", "NP", "U"):
@@ -107,6 +112,7 @@ def ops(values=(1, 2)):
     out.append(["create", "K1", {"a": 1}])
     out.append(["set", "F1", {"sid": "hamlet/other"}])
     out.append(["update", "V1", {"sid": "x", "a": 5}])
+    out.append(["update", "F1", {"next": 1, "next.review": "r"}])
     # dotted names: two files of one folder that differ after the dot
     for e in ("X1", "X2"):
         out.append(["create", e, None])
@@ -253,7 +259,7 @@ def observe(C):
         except Exception as ex:  # noqa
             obs["data"][e] = "EXC " + type(ex).__name__
         try:
-            obs["attr"][e] = [x.get_attr("a"), x.get_attr("b"), x.get_attr("zz")] if x else None
+            obs["attr"][e] = [x.get_attr(k) for k in ATTR_KEYS] if x else None
         except Exception as ex:  # noqa
             obs["attr"][e] = "EXC " + type(ex).__name__
     for s in search_menu(C):
@@ -281,7 +287,7 @@ def expected(C, model):
             d_uri["sid"] = uri
         routed = typed and C["ref"].natural(s)[0] not in st.sources   # types whose getter is None read nothing through GetFromAll
         exp["data"][e] = [d, d_uri, (d if routed else {})]
-        exp["attr"][e] = ([d.get("a"), d.get("b"), d.get("zz")] if routed else [None, None, None]) if typed else None
+        exp["attr"][e] = ([d.get(k) for k in ATTR_KEYS] if routed else [None] * len(ATTR_KEYS)) if typed else None
     for s in search_menu(C):
         from mc.ref import search as rs
         typed = rs.denoted_typed(C["ref"], s, [(u.type, u.string) for u in unfold_search(s)])
